@@ -472,3 +472,76 @@ theorem dinv_reach (p : Params) (hf : p.fresh = true) (hst : p.stopAfterCtx = tr
   exact this.2
 
 end GB.WCtx
+
+namespace GB.WCtx
+
+/-- ANY schedule: along every run from `s` that contains no new call, the helper steps taken plus the work left
+    never exceed the work there was — so in every interleaving the helpers take at most `hrank s` steps, and
+    (by `helper_progress`) they are never stuck before they are all gone. -/
+theorem bounded_any_schedule (p : Params) :
+    ∀ (ls : List Label) (s s' : State), GB.LTS.run (step p) s ls = some s' → ls.all (· != .call) = true →
+      (ls.filter helperLabel).length + hrank s' ≤ hrank s := by
+  intro ls
+  induction ls with
+  | nil => intro s s' h _; simp [GB.LTS.run] at h; subst h; simp
+  | cons l t ih =>
+    intro s s' h hall
+    simp only [GB.LTS.run] at h
+    cases hs : step p s l with
+    | none => simp [hs] at h
+    | some s1 =>
+      rw [hs] at h
+      simp only [List.all_cons, Bool.and_eq_true] at hall
+      have hne : l ≠ .call := by
+        intro e; subst e; simp at hall
+      have := ih s1 s' h hall.2
+      cases hl : helperLabel l
+      · have := hrank_mono p s s1 l hne hs
+        simp [List.filter, hl]; omega
+      · have := helper_step_decreases p s s1 l hl hs
+        simp [List.filter, hl]; omega
+
+/-! ### negative witnesses -/
+
+/-- unbuffered result channel (seeded change C02-m3), everything else as in the code -/
+def unbuffered : Params := { cap := 0, fresh := true, closeOnDone := false, stopAfterCtx := true }
+
+/-- one channel shared by all calls of the stream, caller keeps calling -/
+def shared : Params := { cap := 1, fresh := false, closeOnDone := false, stopAfterCtx := false }
+
+/-- the state after: call, ctx done, caller leaves through ctx.Done, handler returns, the primitive returns -/
+def leaked : State :=
+  { next := 1, caller := none, helpers := [(0, true)], bufs := [], ctxDone := true, released := true, stopped := true,
+    cancels := 1, got := [] }
+
+theorem leaked_reached :
+    GB.LTS.run (step unbuffered) init [.call, .ctxDone, .takeCtx, .close, .primRet 0] = some leaked := by decide
+
+/-- with capacity 0 the helper whose call was abandoned stays blocked in `errChan <- f()` for ever: in every state
+    reachable from `leaked` (any labels whatsoever) it is still there -/
+theorem leaked_forever : ∀ (ls : List Label) (s : State), GB.LTS.run (step unbuffered) leaked ls = some s →
+    s.helpers = [(0, true)] ∧ (step unbuffered s (.deliver 0)) = none := by
+  have key : ∀ (ls : List Label) (a s : State), a.caller = none → a.stopped = true → a.helpers = [(0, true)] →
+      GB.LTS.run (step unbuffered) a ls = some s →
+      s.helpers = [(0, true)] ∧ (step unbuffered s (.deliver 0)) = none := by
+    intro ls
+    induction ls with
+    | nil =>
+      intro a s h1 h2 h3 h
+      simp [GB.LTS.run] at h; subst h
+      exact ⟨h3, by simp [step, unbuffered]⟩
+    | cons l t ih =>
+      intro a s h1 h2 h3 h
+      simp only [GB.LTS.run] at h
+      cases hs : step unbuffered a l with
+      | none => simp [hs] at h
+      | some a1 =>
+        rw [hs] at h
+        have : a1.caller = none ∧ a1.stopped = true ∧ a1.helpers = [(0, true)] := by
+          cases l <;> simp [step, h1, h2, h3, unbuffered, doClose] at hs <;> (try (subst hs; simp [h1, h2, h3]))
+          all_goals (obtain ⟨_, rfl⟩ := hs; simp [h1, h2, h3])
+        exact ih a1 s this.1 this.2.1 this.2.2 h
+  intro ls s h
+  exact key ls leaked s rfl rfl rfl h
+
+end GB.WCtx
